@@ -34,7 +34,7 @@ def features(spec, fs, rd, rng):
 
 @st.composite
 def st_model_case(draw):
-    model = draw(G.st_model(max_kernels=3))
+    model = draw(G.st_model(max_kernels=3, evals=["rbf", "kernel", "spline", "linear", "subsetrbf", "prefixrbf", "listrbf"]))
     # array level: the full baseline tables, including the ones excluded from the molecular generators
     for k in model["kernels"]:
         if not model["xc2"] and model["sl"] in ("npa", "np"):
